@@ -14,6 +14,7 @@ import (
 	"github.com/cloudflare/pat-go/tokens/batched"
 	"github.com/cloudflare/pat-go/tokens/type5"
 
+	"verif/bx"
 	"verif/mc"
 	"verif/px"
 )
@@ -22,7 +23,8 @@ type listCase struct {
 	Op string `json:"op"`
 }
 
-var listOps = []string{"batched.CreateTokenRequest then Unmarshal into the built object", "batched.CreateTokenRequest then Marshal", "type5.CreateTokenRequestWithBlinds then finalize"}
+var listOps = []string{"batched.CreateTokenRequest then Unmarshal into the built object", "batched.CreateTokenRequest then Marshal", "type5.CreateTokenRequestWithBlinds then finalize",
+	"batched.EvaluateBatch: the response handed out earlier keeps its bytes across later batches"}
 
 func runList(c listCase) (string, *mc.Viol) {
 	mc.Entropy("c16-list-" + c.Op)
@@ -82,6 +84,31 @@ func runList(c listCase) (string, *mc.Viol) {
 			}
 			if !bytes.Equal(l[i].Marshal(), encs[i]) {
 				return bad("element of the caller's request list changed", fmt.Sprintf("position %d", i))
+			}
+		}
+	case listOps[3]:
+		bi := batched.NewBasicBatchedIssuer(bx.Issuer1{I: w1.Issuer}, bx.Issuer2{I: w2.Issuer})
+		eval := func(tag string, n int) []byte {
+			breq, err := batched.NewBasicClient().CreateTokenRequest(mkList(tag, n))
+			if err != nil {
+				panic(err)
+			}
+			dec := new(batched.BatchedTokenRequest)
+			if !dec.Unmarshal(append([]byte{}, breq.Marshal()...)) {
+				panic("batch does not decode")
+			}
+			resp, err := bi.EvaluateBatch(dec)
+			if err != nil {
+				panic(err)
+			}
+			return resp
+		}
+		first := eval("first", 2)
+		keep := append([]byte{}, first...)
+		for i, n := range []int{1, 3, 2} {
+			_ = eval(fmt.Sprintf("later-%d", i), n)
+			if !bytes.Equal(first, keep) {
+				return bad("the response of an earlier EvaluateBatch changed when a later batch was evaluated", fmt.Sprintf("after %d later batches", i+1))
 			}
 		}
 	case listOps[2]:
